@@ -8,6 +8,10 @@ exact-arithmetic reading.
 namespace Bpp.DistKernels
 open Bpp Bpp.Scalar Bpp.PNorm
 
+/-- the real numbers have no infinite element: over `ℝ` the guard `isinf(x)` (cpp:158) is vacuous -/
+instance : InfTest ℝ := ⟨fun _ => false⟩
+@[simp] theorem isInf_real (x : ℝ) : InfTest.isInf x = false := rfl
+
 /-! ### generic loop facts -/
 
 /-- more fuel never changes a delivered answer -/
